@@ -35,6 +35,7 @@ func (dec *tomlDecoder) Init(reader io.Reader) error {
 		return err
 	}
 	dec.parser.Reset(buf.Bytes())
+	dec.finished = false
 	dec.rootMap = &CandidateNode{
 		Kind: MappingNode,
 		Tag:  "!!map",
